@@ -363,12 +363,11 @@ func projectCollection(rt *ResultTypeExpr, view string, seen map[string]*Attribu
 }
 
 func projectRecursive(at *AttributeExpr, vat *NamedAttributeExpr, view string, seen map[string]*AttributeExpr) (*AttributeExpr, error) {
-	if att, ok := seen[hashAttrAndView(at, view)]; ok {
-		return att, nil
-	}
-	at = DupAtt(at)
-
 	if rt, ok := at.Type.(*ResultTypeExpr); ok {
+		// a nested result type is rendered with the view set on the view
+		// attribute, else with the one set on the attribute itself, else with
+		// the default view - not with the view of the parent: look the
+		// projection up under the view that is actually used.
 		vatt := vat.Attribute
 		view, ok := vatt.Meta.Last(ViewMetaKey)
 		if !ok {
@@ -378,6 +377,10 @@ func projectRecursive(at *AttributeExpr, vat *NamedAttributeExpr, view string, s
 				view = DefaultView
 			}
 		}
+		if att, ok := seen[hashAttrAndView(at, view)]; ok {
+			return att, nil
+		}
+		at = DupAtt(at)
 		seen[hashAttrAndView(at, view)] = at
 		pr, err := project(rt, view, seen)
 		if err != nil {
@@ -386,6 +389,11 @@ func projectRecursive(at *AttributeExpr, vat *NamedAttributeExpr, view string, s
 		at.Type = pr
 		return at, nil
 	}
+
+	if att, ok := seen[hashAttrAndView(at, view)]; ok {
+		return att, nil
+	}
+	at = DupAtt(at)
 
 	if _, ok := at.Type.(*UserTypeExpr); ok {
 		seen[hashAttrAndView(at, view)] = at
